@@ -1485,9 +1485,11 @@ static int _handle_sm(xmpp_conn_t *const conn,
                  * but if there is, it gives a hint at what the server
                  * already received.
                  */
-                if (!_get_h_attribute(stanza, &ul_h)) {
-                    /* In cases there's no `h` included, drop all elements. */
-                    ul_h = (unsigned long)-1;
+                if (_get_h_attribute(stanza, &ul_h)) {
+                    /* In cases there's no (valid) `h` included, we don't
+                     * know what the server received, so keep all elements
+                     * and re-send them in the new session. */
+                    ul_h = 0;
                 }
                 _sm_queue_cleanup(conn, ul_h);
             }
